@@ -90,6 +90,20 @@ def classify_return(P, fn, N, e):
         return 'literal', -1
     if c[0] == 'call' and ir.callee_name(c) in LIB3:
         a, b = c[2][0], c[2][1]
+        if ir.callee_name(c) in ('strncmp', 'memcmp') and len(c[2]) == 3:
+            # a bounded comparison covers both values only if the bound is their byte length: for strings strlen(operand) + 1
+            # (terminator included), for plain objects the size of the type
+            bnd = c[2][2]
+            okb = False
+            for sub in ir.walk(bnd):
+                if sub[0] == 'call' and ir.callee_name(sub) in ('strlen', 'size', 'sizeof'):
+                    okb = True
+                if sub[0] == 'sizeof':
+                    okb = True
+            if ir.callee_name(c) == 'strncmp':
+                okb = any(sub[0] == 'call' and ir.callee_name(sub) == 'strlen' for sub in ir.walk(bnd))
+            if not okb:
+                return 'other', 'the bounded comparison %s does not provably cover the whole of both values (its bound is not the byte length of an operand)' % ir.fmt(c)
         if side(a) == 'self' and side(b) == 'obj':
             return 'lib3', ir.fmt(c)
         return 'other', 'operands of %s are not (self, obj) in that order: %s' % (ir.callee_name(c), ir.fmt(c))
@@ -259,6 +273,10 @@ def decision_rows(P, fname):
     return (frozenset(rows), frozenset(cmps), frozenset(advances)), None
 
 
+class Mismatch(Exception):
+    pass
+
+
 def eval_container_cmp(P, fname, is_map):
     """Evaluate an element-wise container comparison on abstract sequences: own elements A1..Ap, the other's B1..Bq
     (p, q in 0..2), every outcome of the element comparisons from {-5, 0, 7} (cmp need not return -1/0/1), with exact C
@@ -269,8 +287,8 @@ def eval_container_cmp(P, fname, is_map):
     fn = P.fn(fname)
     TERM = 0
     n_eval = 0
-    for p in range(3):
-        for q in range(3):
+    for p, q, same_type, has_cmp in [(a_, b_, st_, hc_) for a_ in range(3) for b_ in range(3) for st_ in (False, True) for hc_ in (1, 0)]:
+        if True:
             m = min(p, q)
             results = [(-5, 0, 7)] * (m * (2 if is_map else 1))
             for combo in itertools.product(*results) if results else [()]:
@@ -294,7 +312,14 @@ def eval_container_cmp(P, fname, is_map):
                 def Bt(j):
                     return 200 + j if 1 <= j <= q else TERM
 
-                def call(nm, e, it, kc=kc, vc=vc, p=p, q=q):
+                def call(nm, e, it, kc=kc, vc=vc, p=p, q=q, same_type=same_type, has_cmp=has_cmp):
+                    if nm in ('memcmp', 'strcmp', 'strncmp'):
+                        raise Mismatch('compares raw storage with %s (padding bytes and stored pointers are not part of the value)' % nm)
+                    if nm in ('type_implements', 'implements'):
+                        return has_cmp
+                    if nm == 'type_of':
+                        a0 = ir.top_nocast(it.N.canon(e[2][0]))
+                        return OWN if (a0 == ('param', 0) or same_type) else 8999
                     args = [it.ev(a) for a in e[2]]
                     first = ir.top_nocast(it.N.canon(e[2][0])) if e[2] else None
                     if nm == 'len' and first == ('param', 1):
@@ -326,13 +351,23 @@ def eval_container_cmp(P, fname, is_map):
                                 if i == j and i - 1 < len(tab):
                                     return -tab[i - 1]
                                 raise cint.NoEval('elements at different positions are compared')
-                        raise cint.NoEval('cmp of something that is not an element pair')
+                        raise Mismatch('cmp is applied to something that is not an element of self and the element of obj at the same position '
+                                       '(a value address computed with the wrong offset, for instance)')
                     raise cint.NoEval('call %s' % nm)
-                atoms = {('global', 'Terminal'): TERM, ('param', 0): 1, ('param', 1): 2, ('arrow', ('param', 0), 'nitems'): p}
+                atoms = {('global', 'Terminal'): TERM, ('param', 0): 1, ('param', 1): 2, ('arrow', ('param', 0), 'nitems'): p,
+                         ('arrow', ('param', 1), 'nitems'): q, ('arrow', ('param', 0), 'ksize'): 8, ('arrow', ('param', 0), 'vsize'): 16,
+                         ('arrow', ('param', 0), 'tsize'): 8, ('arrow', ('param', 0), 'type'): 8500, ('arrow', ('param', 1), 'type'): 8500,
+                         ('arrow', ('param', 0), 'data'): 600000, ('arrow', ('param', 1), 'data'): 700000}
+                for gi, gname in enumerate(('Array', 'List', 'Tuple', 'Tree', 'Table')):
+                    atoms[('global', gname)] = 8000 + gi
+                OWN = atoms[('global', fname.split('_')[0])]
                 for i in range(0, p + 2):
                     atoms[('idx', ('arrow', ('param', 0), 'items'), ('int', i))] = A(i + 1)
                 it = cint.CInt(P, fn, atoms=atoms, call=call, N=util.Norm(P, fn, expand_locals=True, inline=False))
-                r = it.run([1, 2])
+                try:
+                    r = it.run([1, 2])
+                except Mismatch as mm:
+                    return n_eval, 'own sequence of %d, other of %d%s: %s' % (p, q, ' (a container of the same type)' if same_type else '', mm), None
                 n_eval += 1
                 if r[0] == 'stuck':
                     return n_eval, None, '%s at %s' % (r[1], P.cfg(fn).describe(r[2]))
